@@ -962,7 +962,7 @@ def main(chk: core.Check, replay: typing.Optional[str] = None) -> int:
     quick = chk.tier == 'quick'
     adopt_own_findings(chk)
     repo = core.REPO
-    res = core.coq_check('C18', ['pyobj'])
+    res = core.coq_check('C18', ['pyobj'], timeout=400)
     chk.proof_coverage(res, [
         'scanner of lang/py/templates/base.j2 and translator of pick_width (tools/translators/gen_c18.py)',
         'hand model Gen/PyObj.v of the generated classes, of NumPy array conversion and of update_from_builtin/to_builtin; validated by the '
